@@ -29,7 +29,12 @@ func reconnectUnit(vers uint16, capacity, depth int) harness.Unit {
 			if op < 3 {
 				return "connect(" + names[op] + ")"
 			}
-			return []string{"rotate ticket keys (old key kept)", "rotate ticket keys (old key dropped)"}[op-3]
+			return []string{"rotate ticket keys (old key kept)", "rotate ticket keys (old key dropped)", "server: MaxVersion toggles between 1.1 (initial) and 1.2", "client: MaxVersion toggles between 1.2 (initial) and 1.0"}[op-3]
+		}
+		// vers == 0: both ends speak TLS 1.0-1.2 and two more operations move their version caps
+		nops, sCaps, cCaps := 5, []uint16{0x0302, 0x0303}, []uint16{0x0303, 0x0301}
+		if vers == 0 {
+			nops = 7
 		}
 		var seqs [][]int
 		var rec func(cur []int)
@@ -40,7 +45,7 @@ func reconnectUnit(vers uint16, capacity, depth int) harness.Unit {
 			if len(cur) == depth {
 				return
 			}
-			for op := 0; op < 5; op++ {
+			for op := 0; op < nops; op++ {
 				rec(append(cur, op))
 			}
 		}
@@ -57,8 +62,22 @@ func reconnectUnit(vers uint16, capacity, depth int) harness.Unit {
 			sc.SetSessionTicketKeys(keys)
 			cc := &gmtls.Config{RootCAs: p.StdRootsG, Time: tlsk.FixedTime, Rand: wire.NewRand(22), MinVersion: vers, MaxVersion: vers, ClientSessionCache: gmtls.NewLRUClientSessionCache(capacity)}
 			hist := ""
+			sCap, cCap := 0, 0
+			if vers == 0 {
+				sc.MinVersion, sc.MaxVersion, cc.MinVersion, cc.MaxVersion = 0x0301, sCaps[0], 0x0301, cCaps[0]
+			}
 			for i, op := range sq {
 				hist += opName(op) + "; "
+				if op == 5 {
+					sCap = (sCap + 1) % 2
+					sc.MaxVersion = sCaps[sCap]
+					continue
+				}
+				if op == 6 {
+					cCap = (cCap + 1) % 2
+					cc.MaxVersion = cCaps[cCap]
+					continue
+				}
 				if op >= 3 {
 					nk := [32]byte{byte(10 + i)}
 					if op == 3 {
@@ -92,6 +111,16 @@ func reconnectUnit(vers uint16, capacity, depth int) harness.Unit {
 				if !o.C.Complete || !o.S.Complete {
 					c.Violate("reconnect:fails:"+key, fmt.Sprintf("[%s] a correctly configured pair must complete every connection: %s", label, o.Describe()), nil, label)
 					continue
+				}
+				wantV := vers
+				if vers == 0 {
+					wantV = sCaps[sCap]
+					if cCaps[cCap] < wantV {
+						wantV = cCaps[cCap]
+					}
+				}
+				if o.C.Version != wantV {
+					c.Violate("reconnect:version:"+key, fmt.Sprintf("[%s] negotiated %04x, the configured caps give %04x", label, o.C.Version, wantV), nil, label)
 				}
 				if o.C.Version != o.S.Version || o.C.Suite != o.S.Suite || o.C.DidResume != o.S.DidResume || !bytes.Equal(o.C.EKM, o.S.EKM) {
 					c.Violate("reconnect:views-differ:"+key, fmt.Sprintf("[%s] %s", label, o.Describe()), nil, label)
